@@ -34,11 +34,17 @@ ASSUMPTIONS = ['behavioural comparison uses small signals and nprocesses=1; ense
 VARIANTS = ['sift', 'mask_sift', 'ensemble_sift', 'complete_ensemble_sift']
 
 
+def _nan_safe(v):
+    if isinstance(v, list):
+        return [_nan_safe(u) for u in v]
+    return 'nan' if isinstance(v, float) and v != v else v
+
+
 def norm(o):
     if isinstance(o, dict):
         return {k: norm(v) for k, v in o.items()}
     if isinstance(o, np.ndarray):
-        return ('arr', o.tolist())
+        return ('arr', _nan_safe(o.tolist()))
     if isinstance(o, tuple):
         return ('tup', [norm(v) for v in o])
     if isinstance(o, list):
@@ -55,7 +61,7 @@ def ynorm(o):
     if isinstance(o, dict):
         return {k: ynorm(v) for k, v in o.items()}
     if isinstance(o, np.ndarray):
-        return ynorm(o.tolist())
+        return ynorm(_nan_safe(o.tolist()))
     if isinstance(o, (tuple, list)):
         return [ynorm(v) for v in o]
     if isinstance(o, (np.floating,)):
@@ -391,7 +397,7 @@ def gen_history(rng, name):
         try:
             if len(path) <= 3:
                 if op in ('set', 'set_nested', 'update'):
-                    mget(model, path[:-1])[path[-1]] = step['value']
+                    mget(model, path[:-1])[path[-1]] = copy.deepcopy(step['value'])     # (a copy: later steps edit the shadow in place)
                 elif op == 'del':
                     del mget(model, path[:-1])[path[-1]]
         except Exception:
